@@ -183,7 +183,11 @@ mod dictionary {
     impl Codec for DictionaryCodec {
         /// Decode a sequence of byte slices.
         fn decode<'a>(&'a self, bytes: &'a [u8]) -> &'a [u8] {
-            if let Some(bytes) = self.decode.get(bytes[0].into()) {
+            // The empty byte string is always stored literally.
+            let Some(&tag) = bytes.first() else {
+                return bytes;
+            };
+            if let Some(bytes) = self.decode.get(tag.into()) {
                 bytes
             } else {
                 bytes
@@ -197,6 +201,11 @@ mod dictionary {
         where
             for<'a> R: Region + Push<&'a [u8]>,
         {
+            // The empty byte string has no first byte to serve as a tag: it is stored literally,
+            // costs nothing, and does not take part in the statistics.
+            if bytes.is_empty() {
+                return output.push(bytes);
+            }
             self.total += bytes.len();
             // If we have an index referencing `bytes`, use the index key.
             let index = if let Some(b) = self.encode.get(bytes) {
